@@ -79,6 +79,27 @@ def check(ctx: Ctx) -> str:
               f"a context lookup is recorded only under {conds}; every condition beyond `action == resolve` and `not an environment global` ({extra}) hides names that the generated code still resolves from the render context at run time", ef.loc(adds[0]), detail={"conditions": conds})
     ctx.check(not [n_ for n_ in ast.walk(ef.node) if isinstance(n_, ast.Continue)] or not extra, "tracking:no-skip", "meta:TrackingCodeGenerator.enter_frame", "loads skipped with continue", "no load may be skipped", ef.loc())
     ctx.check("param not in self.environment.globals" in s and "self.undeclared_identifiers.add(param)" in s, "tracking:record", "meta:TrackingCodeGenerator.enter_frame", "records the name", "every resolved name that is not an environment global must be recorded", ef.loc())
+    # the tracking generator reads frame.symbols.loads *after* the base enter_frame ran: the
+    # code generator must leave the symbol tables as the analysis built them (who-may-write:
+    # only idtracking stores into Symbols.loads / refs / stores)
+    n_w = 0
+    for mod in ("compiler", "meta", "nativetypes"):
+        m_ = repo.module(mod)
+        for n_ in ast.walk(m_.tree):
+            tgt = None
+            if isinstance(n_, ast.Subscript) and isinstance(n_.ctx, (ast.Store, ast.Del)) and isinstance(n_.value, ast.Attribute) and n_.value.attr in ("loads", "refs") and "symbols" in ast.unparse(n_.value):
+                tgt = n_
+            elif isinstance(n_, ast.Call) and isinstance(n_.func, ast.Attribute) and n_.func.attr in ("pop", "update", "clear", "setdefault", "popitem", "add", "discard", "remove") and isinstance(n_.func.value, ast.Attribute) and n_.func.value.attr in ("loads", "refs", "stores") and "symbols" in ast.unparse(n_.func.value):
+                tgt = n_
+            elif isinstance(n_, ast.Attribute) and isinstance(n_.ctx, (ast.Store, ast.Del)) and n_.attr in ("loads", "refs", "stores") and "symbols" in ast.unparse(n_.value):
+                tgt = n_
+            if tgt is not None:
+                n_w += 1
+                ctx.bad(f"{mod}:{astq.enclosing_qual(tgt)}", f"modifies the symbol table: {ast.unparse(tgt)[:50]}",
+                        f"{mod}.{astq.enclosing_qual(tgt)} modifies `{ast.unparse(tgt)[:60]}`: the symbol tables are read again after code generation started (TrackingCodeGenerator.enter_frame reports the resolve loads after the base implementation ran; nested frames copy them) - a load re-labelled here is looked up from the context at run time but no longer reported by find_undeclared_variables",
+                        f"{m_.rel}:{tgt.lineno}")
+    if not n_w:
+        ctx.ok("symbols:read-only-in-compiler", detail={"modules": ["compiler", "meta", "nativetypes"], "writes": 0})
     wr = repo.func("meta:TrackingCodeGenerator.write")
     body = [x for x in wr.node.body if not (isinstance(x, ast.Expr) and isinstance(x.value, ast.Constant))]  # type: ignore[attr-defined]
     ctx.check(not body or all(isinstance(x, ast.Pass) for x in body), "tracking:write", "meta:TrackingCodeGenerator.write", "write is a no-op", "the tracking generator must not write", wr.loc())
